@@ -76,6 +76,8 @@ type Conn struct {
 	closed  chan struct{}
 	closeMu sync.Mutex
 	closing bool
+	// Set to 1 under writeFrameMu once a close frame has been written.
+	closeFrameSent int32
 
 	pingCounter   int32
 	activePingsMu sync.Mutex
